@@ -492,7 +492,7 @@ def ob_csr_accept(fns):
     ob = Obligation("csr_accept",
                     "CertificateSigningRequestParams::from_der, every Ok path: the request was parsed and its signature check returned Ok before the result is "
                     "built; the returned key bytes are the request's subjectPublicKey bits and the returned algorithm has the key type of the request's "
-                    "SubjectPublicKeyInfo algorithm identifier; every requested extension is one of KeyUsage / SubjectAlternativeName / ExtendedKeyUsage with no "
+                    "SubjectPublicKeyInfo algorithm identifier, and is the algorithm named by the signature algorithm OID whenever that one has this key type (parse-back returns the generating key pair's algorithm); every requested extension is one of KeyUsage / SubjectAlternativeName / ExtendedKeyUsage with no "
                     "non-standard purpose; subject, key usages (bit-reversed flags), every general name (converted, in order) and every standard purpose flag "
                     "are carried into the returned parameters and nothing else is set",
                     ["CertificateSigningRequestParams::from_der", "CertificateParams::insert_extended_key_usage"])
@@ -565,6 +565,14 @@ def ob_csr_accept(fns):
                 if not okk or not spki_ev or spki_ev[-1][1] != "csr.certification_request_info.subject_pki.raw":
                     return fail("the returned key algorithm is the one named by the signature algorithm OID; nothing ties its key type to the algorithm "
                                 "identifier of the request's SubjectPublicKeyInfo (e.g. a P-384 key signing with SHA-256 is labelled P-256)", "alg-mismatch", mdl)
+            # G3b (C07 parse-back clause "the same ... key algorithm"): a request generated by rcgen names, as its signature algorithm, the
+            # algorithm of the key pair that signed it; whenever that algorithm is consistent with the SubjectPublicKeyInfo (same key type) it is
+            # the one to return - a choice made from the SubjectPublicKeyInfo alone relabels RSA-SHA384/512 requests as RSA-SHA256
+            okb, mdl = _valid(ob, pc, z3.Implies(keytype(ALG_SIG) == keytype(ALG_SPKI), at == ALG_SIG), label + "/sig-alg-kept")
+            if not okb:
+                return fail("the returned key algorithm is not the one named by the request's signature algorithm although that algorithm has the key "
+                            "type of the request's SubjectPublicKeyInfo: parsing back a request generated with an RSA-SHA384 or RSA-SHA512 key pair "
+                            "returns another algorithm than the key pair's", "alg-relabel", mdl)
             # G4 / G5: which extensions were present on this path, and what must have been carried over
             want_san, want_eku, want_ku = [], [], None
             has_req, _ = _valid(ob, pc, z3.Bool("has_extension_request"), label + "/has-request")
@@ -638,7 +646,7 @@ def ob_csr_accept(fns):
         ob.result, ob.reason = "inconclusive", "no Ok path of from_der was reached (vacuous)"
         return ob
     ob.result = "pass"
-    ob.battery, ob.battery_features = ("csr-accept", 22), ["x509-parser"]
+    ob.battery, ob.battery_features = ("csr-accept", 28), ["x509-parser"]
     ob.bound_text = (f"<= {MAX_EXT} requested extensions; SubjectAlternativeName extensions with 2 (first) / 1 (second) general names; scenarios: "
                      + "; ".join(f"{n}: {t}" for n, t, _ in SCENARIOS) + f"; {n_ok} Ok paths; foreign struct layout from {LAYOUT_SOURCE}")
     return ob
